@@ -8,6 +8,8 @@
 //
 //  1. PeriodLimit histories (vlib.PBFS, pass-through mode + global fake clock): period.go
 //  2. TokenLimiter histories (vlib.PBFS, one vsched.RunSeq execution per history): token.go
+//  2b. Scripted histories, every prefix judged: socket-level outages / restarts that lose the script
+//     cache or the data (hard.go), partial outages (hard.go), public-constructor client (real.go)
 //  3. Schedules (vx): 3 threads × 1–2 Take/AllowN on one key, plus fault/outage threads; flapping
 //     store / one-shot faults against the recovery monitor with a recovery epilogue: sched.go
 //
@@ -20,6 +22,7 @@ import (
 	"fmt"
 	"os"
 	"strconv"
+	"strings"
 	"time"
 
 	"github.com/zeromicro/go-zero/core/logx"
@@ -27,13 +30,14 @@ import (
 	"github.com/zeromicro/go-zero/verifshim/vx"
 )
 
-const rule = "histories: explicit-state BFS per configuration — PeriodLimit (period, quota) ∈ {1,2}×{0..3} with and without Align(), ops Take(a|b) / advance {period/2, period−1ms, period, 2·period} / store fault on|off; TokenLimiter (rate, burst) ∈ {(1,1),(2,4),(5,10),(5,1),(10,3)}, two instances on one key, ops AllowN#i(now, n ∈ {1,2,burst,burst+1}) / advance {0.1 (monitor tick), 0.5, 1, 2, 2·burst/rate+1 s} / outage begin|end / one-shot fault (exactly the next 1|2 store commands fail) — on the real limiters + real Lua scripts against miniredis; a state is distinct by reference ⊕ white-box mode flags ⊕ store contents and TTLs; counted non-trivial when the limit was active on the path's last window (a request beyond quota / a refused or oversized token request). Schedules: all interleavings within the preemption bound of 3 threads × 1–2 requests on one key (+ fault / outage thread, recovery monitor); flapping-store scenarios: 1–2 callers × 1–3 AllowN + a fault thread running (down,up,down,up) or one-shot faults, harness operations reordered freely (yield), P preemptions inside calls / the monitor, timer deviation T=1 (the monitor's tick may fire while callers are runnable), then a recovery epilogue (faults cleared, 5 ping intervals at quiescence: every instance back in store mode; refill time; a final pair AllowN#1/#2(now, burst) answered by one bucket); distinct = distinct answer sequences"
+const rule = "histories: explicit-state BFS per configuration — PeriodLimit (period, quota) ∈ {1,2}×{0..3} with and without Align(), ops Take(a|b) / advance {period/2, period−1ms, period, 2·period} / store fault on|off / the server loses its script cache (SCRIPT FLUSH, store reachable; ≤ 1 per history, thorough ≤ 2); TokenLimiter (rate, burst) ∈ {(1,1),(2,4),(5,10),(5,1),(10,3)}, two instances on one key, ops AllowN#i(now, n ∈ {1,2,burst,burst+1}) / advance {0.1 (monitor tick), 0.5, 1, 2, 2·burst/rate+1 s} / outage begin|end / one-shot fault (exactly the next 1|2 store commands fail) / the server loses its script cache (reachable; also inside an outage = restart with persisted data) / thorough: the shorthands Allow#1(), AllowCtx#2(ctx) and partial outages (PING answered, every other command refused: local bound over the whole partial outage) — on the real limiters + real Lua scripts against miniredis; a state is distinct by reference ⊕ white-box mode flags ⊕ store contents and TTLs; counted non-trivial when the limit was active on the path's last window (a request beyond quota / a refused or oversized token request). Schedules: all interleavings within the preemption bound of 3 threads × 1–2 requests on one key (+ fault / outage thread, recovery monitor); flapping-store scenarios: 1–2 callers × 1–3 AllowN + a fault thread running (down,up,down,up) or one-shot faults, harness operations reordered freely (yield), P preemptions inside calls / the monitor, timer deviation T=1 (the monitor's tick may fire while callers are runnable), then a recovery epilogue (faults cleared, 5 ping intervals at quiescence: every instance back in store mode; refill time; a final pair AllowN#1/#2(now, burst) answered by one bucket); fault scripts also over flush (script cache lost; flush-only scripts keep the exact one-bucket oracle during the race) and pdown/pup (partial outage). Scripted histories (every prefix judged): socket-level outages incl. restarts that lose the script cache or data + script cache, partial outages, and histories through a client built by the public redis.NewRedis (real breaker) with script-cache / data loss and the Allow()/AllowCtx() shorthands; distinct = distinct answer sequences"
 
 // Case is the replay value of a history violation.
 type Case struct {
 	Kind   string `json:"kind"` // period | token
 	Period []POp  `json:"period,omitempty"`
 	Token  []TOp  `json:"token,omitempty"`
+	Real   bool   `json:"real,omitempty"` // run with the client built by the public constructor (real.go)
 }
 
 func envInt(name string, def int) int {
@@ -49,6 +53,15 @@ func main() {
 	logx.Disable()
 	getEnv() // start miniredis + client (and load the scripts) outside any controlled execution
 	scs := scenarios(cfg.Thorough())
+	if only := os.Getenv("C03_ONLY_SCEN"); only != "" && cfg.Replay == "" { // measuring aid: schedule scenarios whose name contains the text
+		var keep []vx.Scenario
+		for _, sc := range scs {
+			if strings.Contains(sc.Name, only) {
+				keep = append(keep, sc)
+			}
+		}
+		scs = keep
+	}
 	quick, thorough := vx.Bounds{P: 2, T: 0}, vx.Bounds{P: 3, T: 1}
 
 	if cfg.Replay != "" {
@@ -71,12 +84,20 @@ func main() {
 			vlib.Fatal("load replay: %v", err)
 		}
 		var res runResult
-		if c.Kind == "period" {
-			fmt.Printf("replay class=%s history=%v\n", class, c.Period)
-			res = runPeriod(c.Period, true)
+		run := func() {
+			if c.Kind == "period" {
+				fmt.Printf("replay class=%s history=%v\n", class, c.Period)
+				res = runPeriod(c.Period, true)
+			} else {
+				fmt.Printf("replay class=%s history=%v\n", class, c.Token)
+				res = runToken(c.Token, true)
+			}
+		}
+		if c.Real {
+			fmt.Println("client: redis.NewRedis (real breaker and hooks)")
+			withEnv(getRealEnv(), run)
 		} else {
-			fmt.Printf("replay class=%s history=%v\n", class, c.Token)
-			res = runToken(c.Token, true)
+			run()
 		}
 		if res.err != "" {
 			fmt.Printf("expected: every step agrees with the reference (window counter / one shared token bucket)\nobserved: class=%s %s\n", res.class, res.err)
@@ -87,13 +108,21 @@ func main() {
 		os.Exit(0)
 	}
 
-	if cfg.Shard == "" { // not a vx shard worker: run (or serve) the history searches first
+	if cfg.Shard == "" && os.Getenv("C03_SKIP_HIST") == "" { // not a vx shard worker: run (or serve) the history searches first
 		pd, td := 7, 5
 		blips := 2 // one-shot faults per token history (quick: every placement of up to two in 5 ops)
 		if cfg.Thorough() {
 			pd, td = 9, 7
 		}
-		pd, td, blips = envInt("C03_PERIOD_DEPTH", pd), envInt("C03_TOKEN_DEPTH", td), envInt("C03_TOKEN_BLIPS", blips)
+		// losses of the server's script cache per history (period and token): quick every placement
+		// of one, thorough of up to two
+		flushes := 1
+		if cfg.Thorough() {
+			flushes = 2
+		}
+		shorts := envInt("C03_TOKEN_SHORTHANDS", map[bool]int{false: 0, true: 1}[cfg.Thorough()]) == 1
+		partials := envInt("C03_TOKEN_PARTIAL", map[bool]int{false: 0, true: 1}[cfg.Thorough()]) == 1
+		pd, td, blips, flushes = envInt("C03_PERIOD_DEPTH", pd), envInt("C03_TOKEN_DEPTH", td), envInt("C03_TOKEN_BLIPS", blips), envInt("C03_FLUSHES", flushes)
 		budget := cfg.Deadline().Sub(cfg.Start)
 		pcfgs := periodConfigs(cfg.Thorough())
 		perCfg := map[string]*[2]int{}
@@ -106,7 +135,7 @@ func main() {
 				if d == 0 {
 					return pcfgs
 				}
-				return periodAlphabet(path)
+				return periodAlphabet(path, flushes, d == pd)
 			},
 			Run: func(path []POp) vlib.RunResult {
 				res := runPeriod(path, false)
@@ -155,7 +184,7 @@ func main() {
 				if d == 0 {
 					return tcfgs
 				}
-				return tokenAlphabet(path, blips, d == td)
+				return tokenAlphabet(path, blips, flushes, shorts, partials, d == td)
 			},
 			Run: func(path []TOp) vlib.RunResult {
 				res := runToken(path, false)
@@ -194,6 +223,7 @@ func main() {
 		}
 		record(r, "token-histories", out, td, perCfgT, time.Since(t0))
 		runHard(r)
+		runReal(r)
 	}
 	r.Assume("window / TTL expiry follows miniredis: a key is gone as soon as its TTL has fully elapsed (window = [first take, first take + period)); real Redis keeps it for the final millisecond")
 	r.Assume("each request is one Lua script executed atomically by the store; the redis client's circuit breaker is replaced by breaker.NopBreaker (injected faults must not open a breaker shared by all histories of a process)")
@@ -222,11 +252,23 @@ func stable(what string, verbose bool, run func(verbose bool) runResult) runResu
 	}
 	res := once(verbose)
 	if res.err != "" {
-		for i := 0; i < 2; i++ {
-			if again := once(false); again.class != res.class {
+		// A failing verdict counts only if it reproduces: the current verdict must be confirmed by
+		// two further runs in a row. A run that disagrees (a one-off of the environment: a client
+		// time-out on a stalled machine) becomes the new candidate — also a clean one has to be
+		// confirmed twice then. No agreement after 4 changes of mind: ERROR nondeterminism (exit 2).
+		changes := 0
+		for confirmed := 0; confirmed < 2; {
+			again := once(false)
+			if again.class == res.class {
+				confirmed++
+				continue
+			}
+			fmt.Fprintf(os.Stderr, "note: history %s gave class %q, then %q\n", what, res.class, again.class)
+			if changes++; changes > 4 {
 				fmt.Printf("ERROR nondeterminism: history %s gave class %q, then %q\n", what, res.class, again.class)
 				os.Exit(2)
 			}
+			res, confirmed = again, 0
 		}
 	}
 	return res
